@@ -141,7 +141,9 @@ class Election:
     def postCheck(self):
         "post-election sanity check"
         nElected = len(self.elected)
-        nEligible = len(self.C.eligible())
+        #  rules that exclude undeclared write-ins (Minneapolis) cannot elect them
+        noUndeclared = getattr(self.rule, 'excludesUndeclared', False)
+        nEligible = len([c for c in self.C.eligible() if not (noUndeclared and c.isUndeclared)])
         assert(nElected == self.nSeats or
                nElected < self.nSeats and nElected == nEligible)
 
